@@ -1,6 +1,7 @@
 (* C06 — the universal claim about the search ("the bucketed search with merging returns
-   exactly the reference set"), only STATED, and its refutation for the code as pinned
-   (cpctplus.rs, CPCTPlus::shift: `if n.pstack != n_pstack`).
+   exactly the reference set"), only STATED ([search_complete_stmt true] = the code as it is now,
+   not proved: C06 is claimed partial), and its refutation for the code as it was pinned
+   (cpctplus.rs, CPCTPlus::shift: `if n.pstack != n_pstack`; repaired by /repo cf71a95).
 
    Witness (DESIGN §9):  S: S 'a' B | B;  B: 'b' C | ;  C: 'c' | 'c' C;   input  b a a.
    The error is at the first 'a'.  `Insert c` (cost 1) repairs it: b c a a is a sentence.
@@ -10,10 +11,10 @@
    cost-1 success and reports the cost-2 sequences [Insert c, Delete] and [Insert c, Shift, Delete]. *)
 From Coq Require Import List Arith NArith Bool Lia.
 From GV Require Import Common.Outcome Base.Grammar LR.Automaton LR.Validator
-  Repair.Semantics Repair.Spec Repair.Proofs Repair.Search C06.Model C06.Spec C06.Mirror.
+  Repair.Semantics Repair.Spec Repair.Proofs Repair.Search C06.Model C06.Spec C06.Proofs C06.RefProofs C06.Mirror.
 Import ListNotations.
 
-(* [fixed = false]: the code as pinned; [fixed = true]: with the proposed repair of `shift`.
+(* [fixed = false]: the code as pinned; [fixed = true]: with the repair of `shift` (the code now).
    For every validated conflict-free table and the configuration of the first error of an input:
    whatever the search returns (no panic, budget not exhausted) is, as a set, the reference. *)
 Definition search_complete_stmt (fixed : bool) : Prop :=
@@ -124,10 +125,23 @@ Lemma w_mechanism :
   shift_returns w_g w_A w_input 100 [Ins 2; Shf] w_stk 1 = false.
 Proof. vm_compute. split; reflexivity. Qed.
 
-(* with the proposed repair of `shift` the search returns the reference on this input *)
+(* with the repair of `shift` (the code now) the search returns the reference on this input *)
 Lemma w_search_fixed :
   search_mirror true w_g w_A w_input 100 3 w_costs 250 [] 2000 w_stk 1 = Done [[Ins 2]].
 Proof. vm_compute. reflexivity. Qed.
+
+(* the hypotheses of reference_complete are satisfiable, and its conclusion says what one expects here:
+   every normal-form repair at this error costs at least 1, and [Insert c] is THE reported set *)
+Example w_reference_complete_instance :
+  (forall s, nf w_g s -> success w_g w_A w_input 100 3 w_stk 1 s -> (1 <= scost w_g w_input w_costs s 1)%N) /\
+  (forall rs, In rs [[Ins 2]] <->
+     exists s, rs = strip s /\ min_cost_success w_g w_A w_input 100 3 w_costs w_stk 1 s /\
+               parses_furthest w_g w_A w_input 100 3 w_costs 250 w_stk 1 s).
+Proof.
+  destruct (RefProofs.reference_complete w_g w_A w_input 100%nat 3%nat w_costs 250%nat [] w_sched w_stk 1%nat
+              1 3%nat [[Ins 2]] w_costs_pos ltac:(lia) w_reference) as (Hin & _ & Hmin & _).
+  split; [exact Hmin|exact Hin].
+Qed.
 
 Definition search_complete_refuted_stmt : Prop := ~ search_complete_stmt false.
 
